@@ -37,7 +37,7 @@ PROPS = {
  "C03": {
   "module": "Zog.Props.C03",
   "theorems": COMMON + [P + "C03." + t for t in ["bool_table", "int_from_string", "string_is_display", "time_table", "slice_table", "slice_length_preserved", "set_leaves_other_fields", "ptr_nil_stays_nil", "coercer_selected", "clean_parse_is_placed", "placed_leaf_present", "placed_leaf_absent", "placed_slice", "placed_ptr_absent", "placed_ptr_present", "placed_struct_frame"]] + ["Zog.Spec.placed_of_clean", "Zog.Spec.destLoop_get_own", "Zog.Spec.sliceLoop_dest"],
-  "streams": [st("coerce", 1500, 200000), eng(2000, 100000), eng(2500, 100000, "prepop")],
+  "streams": [st("coerce", 1500, 200000), eng(2000, 100000), eng(2500, 100000, "prepop"), eng(2000, 100000, "api")],
   "trusted_base": ENGINE_TB + ["external, supplied per case by the harness from the standard library directly: strconv.ParseFloat, time.Parse, fmt %v"],
   "assumptions": ENGINE_ASSUME,
  },
@@ -89,7 +89,7 @@ PROPS = {
  "C12": {
   "module": "Zog.Props.C12",
   "theorems": COMMON + [P + "C12." + t for t in ["tests_run_once_in_order", "posts_in_order_stop_at_first_error", "post_error_one_issue", "plain_error_issue_at_node_path", "posts_gated_on_no_issue", "posts_run_when_clean", "post_error_not_caught", "custom_called_with_value", "custom_mismatch_no_call", "pre_mismatch_skips", "pre_error_skips", "pre_ok_runs_inner", "pre_validate", "engine_log_is_spec_log"]],
-  "streams": [eng(3000, 150000), eng(2000, 100000, "catch"), eng(2000, 100000, "pre")],
+  "streams": [eng(3000, 150000), eng(2000, 100000, "catch"), eng(2000, 100000, "pre"), eng(1500, 60000, "api")],
   "trusted_base": ENGINE_TB, "assumptions": ENGINE_ASSUME,
  },
  "C13": {
@@ -128,7 +128,7 @@ PROPS = {
  "C17": {
   "module": "Zog.Props.C17",
   "theorems": [P + "C17." + t for t in ["not_is_local", "negated_test_semantics", "plain_test_unchanged", "wellformed_isNot_clear", "required_last_wins", "optional_last_wins", "default_last_wins", "catch_last_wins", "tests_only_appended", "modifier_leaves_tests", "coercer_is_the_given_one", "not_codes_flip", "shared_schema_is_read_only"]],
-  "streams": [st("builder", 3000, 150000), eng(2000, 80000, "share"), st("preds", 500, 20000)],
+  "streams": [st("builder", 3000, 150000), eng(2000, 80000, "share"), eng(1500, 60000, "api"), st("preds", 500, 20000)],
   "trusted_base": ["modelled, not verified: lean/Zog/Builder.lean mirrors string.go addTest/Not and the Required/Optional/Default/Catch setters of every primitive schema",
                    "regenerated: Gen.notPairs (codes of every negatable string test, dumped from the compiled library), Gen.schemaWrites (go/ast)"] + ENGINE_TB,
   "assumptions": ["well-typed fluent chains: after Not() only NotStringSchema methods are callable; discarding Not()'s result and calling another method is outside the property"],
